@@ -923,6 +923,14 @@ def check_caches(run, modules, rule, functions=None, prog=None, zero_is_a_value=
             nstores += check_ctor_derived(run, rule, prog, eff, classes)
             nstores += check_shared_defaults(run, rule, prog, eff, classes)
             nstores += identity_keyed_attribute_memos(run, rule, prog, eff, classes)
+            from .rules._purity import fields_never_written
+            for c_ in classes:
+                for node_, fld_ in fields_never_written(prog, c_):
+                    nstores += 1
+                    run.subject(rule)
+                    run.fail(rule, '%s|%s|field-never-set:%s' % (c_.mod.name, c_.name, fld_), c_.mod.relpath, node_.lineno,
+                             "%s reads self.%s, which no method of the class or of its bases ever assigns: the read raises AttributeError "
+                             "(the assignment that initialised it is gone)" % (c_.name, fld_))
             from .rules._purity import swapped_arguments
             for m_ in modules:
                 for call_, callee_, a_, p_ in swapped_arguments(prog, m_):
